@@ -121,6 +121,7 @@ Definition parse_leaf (optimize : bool) (t : tschema) (args : str) : res leaf :=
           let col := resolve_col t name in
           let sv := trim_space raw in
           let empty := match sv with [] => true | _ => false end in
+          let fold_arg := match o with OContI | ONContI => true | _ => false end in
           (* setFilterValue *)
           let valres : res (str * str * bool * Z) :=
             if is_numeric_type (c_type col) then
@@ -145,6 +146,7 @@ Definition parse_leaf (optimize : bool) (t : tschema) (args : str) : res leaf :=
           match valres with
           | Err e => Err e
           | Ok (sv, tag, empty, num) =>
+              let sv := if fold_arg then lower sv else sv in
               (* setLowerCaseColumn *)
               let '(col, o, sv) :=
                 if optimize && is_hosts_or_services t then
@@ -161,7 +163,7 @@ Definition parse_leaf (optimize : bool) (t : tschema) (args : str) : res leaf :=
                 let '(o, sv) :=
                   if optimize && has_prefix (s "^") val && has_suffix (s "$") val then
                     let val2 := trim_suffix (s "$") (trim_prefix (s "^") val) in
-                    if has_regex_chars val2 then (o, sv)
+                    if has_regex_chars val2 || is_numeric_type (c_type col) then (o, sv)
                     else match o with ORe => (OEq, val2) | OReI => (OEqI, val2) | _ => (o, sv) end
                   else (o, sv) in
                 if optimize && negb (has_regex_chars val) then
